@@ -346,6 +346,14 @@ def cases(tier, rng):
         if obs == "neqchar":
             case["c"] = rng.choice(codes)
         yield case
+    # text is bytes: rows that end with / consist of NUL or DEL, through every conversion to strings
+    for v in ({"t": "rag", "r": [[65, 0], [0], [67, 67, 67, 67], []]}, {"t": "rag", "r": [[0, 0]]}, {"t": "rag", "r": [[65, 127], [127]]},
+              {"t": "flat", "l": [65, 0]}, {"t": "flat", "l": [0]}):
+        for obs in ("tolist", "iter", "str", "len"):
+            for ops in ([], [{"o": "index", "ix": {"t": "slice", "a": None, "b": None, "s": -1}}], [{"o": "copy"}]):
+                if obs == "str" and v["t"] == "rag":
+                    continue
+                yield {"op": "observe", "enc": "BaseEncoding", "v": v, "ops": ops, "obs": obs, "from_str": False, "vform": "enc"}
     for _ in range(3000 if big else 500):
         enc = rng.choice(ENCS)
         codes = list(range(len(ALPH[enc]))) if enc != "BaseEncoding" else [ord(ch) for ch in ALPH[enc]]
